@@ -13,6 +13,7 @@ lists: no bound on sizes, no assumption on the shape of the border.
 import Model.Border
 import Proofs.Border
 import Proofs.BorderSub
+import Proofs.BorderCentre
 import Mathlib.Analysis.Real.Sqrt
 
 open Model
@@ -240,6 +241,48 @@ theorem d_sub_border_slim (m : Mask) (sub : List Nat) (hsub : sub.length = Impl.
       · omega
       · exact hjb
 
+/-- (d, as the property words it) let `[ylo,yhi]×[xlo,xhi]` be the bounding box of the unmasked
+    region.  For every border pixel `b` the entry of `sub_border_slim` is a sub-pixel of `b` whose
+    distance — in pixel units — from the CENTRE OF THAT BOUNDING BOX is maximal among the sub-pixels of
+    `b`, for every (also non-uniform) positive sub-size map.  (`g` is the over-sampled grid with unit
+    pixel scales: row `r` has `y = (H−1)/2 − r`, column `c` has `x = c − (W−1)/2`; `cR` is the region
+    centre `((ylo+yhi)/2, (xlo+xhi)/2)` in that frame.  The code itself measures to the centre of the
+    bounding box of `g`, which for non-uniform sub-sizes is a different point, less than a quarter pixel
+    away; `farthest_from_region_centre` shows the maximisers agree.) -/
+theorem d_sub_border_farthest_from_region_centre (m : Mask) (sub : List Nat)
+    (hsub : sub.length = Impl.totalPixels m) (hpos : ∀ b, b < sub.length → 0 < sub.getD b 0)
+    (ylo yhi xlo xhi : Nat) (hbox : IsBBox m ylo yhi xlo xhi)
+    (borderPixels : List Nat) (i : Nat) (hi : i < borderPixels.length)
+    (hb : borderPixels[i] < sub.length) :
+    let g : List (α × α) := Impl.subGrid m (1, 1) (0, 0) sub
+    let cR : α × α := (((m.h : α) - 1) / 2 - ((ylo : α) + (yhi : α)) / 2,
+                       ((xlo : α) + (xhi : α)) / 2 - ((m.w : α) - 1) / 2)
+    let off := subOffset sub borderPixels[i]
+    let s := sub[borderPixels[i]]
+    ∃ k, (Impl.subBorderSlim (α := α) m sub sub.length borderPixels)[i]? = some (some k)
+      ∧ off ≤ k ∧ k < off + s * s
+      ∧ ∀ j, off ≤ j → j < off + s * s → Impl.furthestDist g cR j ≤ Impl.furthestDist g cR k := by
+  intro g cR off s
+  have hsd : sub.getD borderPixels[i] 0 = s := by
+    simp [s, List.getD_eq_getElem?_getD, hb]
+  have hs : 0 < s := by rw [← hsd]; exact hpos _ hb
+  obtain ⟨k, hk, hk1, hk2, hmax, _⟩ := d_sub_border_slim (α := α) m sub hsub borderPixels i hi hb hs
+  refine ⟨k, hk, hk1, hk2, ?_⟩
+  have hU : sub.length = (Spec.unmaskedPixels m).length := by rw [hsub, totalPixels_eq]
+  have hg : g = unitGrid m (((m.h : α) - 1) / 2) (((m.w : α) - 1) / 2) sub := subGrid_unit_eq m sub
+  have := farthest_from_region_centre m sub hU hpos (((m.h : α) - 1) / 2) (((m.w : α) - 1) / 2)
+    ylo yhi xlo xhi hbox borderPixels[i] hb k hk1 (by rw [hsd]; exact hk2)
+    (by
+      intro j h1 h2
+      rw [hsd] at h2
+      have := hmax j h1 h2
+      rw [← hg]
+      exact this)
+  intro j h1 h2
+  have := this j h1 (by rw [hsd]; exact h2)
+  rw [← hg] at this
+  exact this
+
 /-! ### the `sqrt` contract is satisfiable: `Real.sqrt` meets it, so every theorem above holds for
 the real-number reading of the code. -/
 theorem sqrtSpec_real : SqrtSpec Real.sqrt :=
@@ -270,5 +313,20 @@ example :
     let g : List (ℚ × ℚ) := [(1, 0), (0, 0), (0, 2), (2, 0)]
     Impl.furthest g [0, 1, 2, 3] (0, 0) = some 3 ∧ Impl.furthestTies g [0, 1, 2, 3] (0, 0) = [2, 3] := by
   decide +kernel
+
+/-- a 3×4 frame with the unmasked row `(1,0),(1,1),(1,2)`, sub-sizes 1, 2, 4 (non-uniform). -/
+def exMask : Mask := ⟨3, 4, [true, true, true, true, false, false, false, true, true, true, true, true]⟩
+
+example : IsBBox exMask 1 1 0 2 := ⟨by decide, by decide, by decide, by decide, by decide⟩
+
+/-- the hypotheses of `d_sub_border_farthest_from_region_centre` are met, the code's centre (bounding
+    box of the over-sampled grid) really differs from the region centre here, and the selected
+    sub-pixels are the expected far corners. -/
+example :
+    [1, 2, 4].length = Impl.totalPixels exMask
+    ∧ Impl.gridCentre (Impl.subGrid (α := ℚ) exMask (1, 1) (0, 0) [1, 2, 4]) = (0, -5/16)
+    ∧ ((((3 : ℚ) - 1) / 2 - ((1 : ℚ) + 1) / 2, ((0 : ℚ) + 2) / 2 - ((4 : ℚ) - 1) / 2) : ℚ × ℚ) = (0, -1/2)
+    ∧ Impl.subBorderSlim (α := ℚ) exMask [1, 2, 4] 3 [0, 1, 2] = [some 0, some 3, some 20] := by
+  refine ⟨by decide, by decide +kernel, by norm_num, by decide +kernel⟩
 
 end C18
